@@ -280,7 +280,9 @@ const DATES: [&str; 16] = ["", "x", "Sun, 06 Nov 1994 08:49:37 GMT", "Sun, 06 No
     // the ends of what the date types can express
     "Fri, 31 Dec 9999 23:59:59 GMT", "Fri, 31 Dec 9999 23:59:58 GMT", "Sat, 01 Jan 0000 00:00:00 GMT", "Mon, 01 Jan 0001 00:00:00 GMT", "Thu, 01 Jan 1970 00:00:01 GMT", "Wed, 31 Dec 1969 23:59:59 GMT",
     "Sunday, 06-Nov-94 08:49:37 GMT", "Sun Nov  6 08:49:37 1994"];
-const ORIGINS: [&str; 8] = ["", "null", "http://", "http://localhost", "https://evil.test:99999", "://", "http://a b", "x"];
+const ORIGINS: [&str; 18] = ["", "null", "http://", "http://localhost", "https://evil.test:99999", "://", "http://a b", "x",
+    // the listener's own scheme and next to nothing behind it
+    "http:", "http:/", "http:a", "http:/localhost", "http:///", "https:", "http", ":", "http:\u{e9}", "http://localhost:"];
 const HOSTS: [&str; 12] = ["", ":", "a:b:c", "[::1", "[::1]", "localhost:99999", "other.test", "OTHER.TEST", "unknown.test", "localhost:", ".", "127.0.0.1:80"];
 const TARGETS: [&str; 26] = [
     "/", "/index.html", "/big.bin", "/sub/a.txt", "/dyn", "/empty.html", "/%", "/%2", "/%zz", "/..", "/./", "//", "/sub/../index.html", "/?%", "/?=&=&", "/?a=%zz&&&b",
@@ -389,6 +391,15 @@ impl Group for Stack {
             b"GET /dyn HTTP/1.1\r\nhost: localhost\r\n\r\n", b"GET /dyn HTTP/1.1\r\nhost: localhost\r\nif-modified-since: Fri, 31 Dec 9999 23:59:59 GMT\r\n\r\n",
             b"GET /dyn HTTP/1.1\r\nhost: localhost\r\nif-modified-since: Sat, 01 Jan 0000 00:00:00 GMT\r\n\r\n", b"GET / HTTP/1.1\r\nhost: localhost\r\naccept-encoding: gzip;q=\r\n\r\n",
         ].iter().map(|b| hex(b)))));
+        // every value of every header pool once, on an otherwise plain request (the random batches draw from the same pools)
+        for (name, pool) in [("origin", &ORIGINS[..]), ("range", &RANGES[..]), ("accept-encoding", &ENCODINGS[..]), ("if-modified-since", &DATES[..]), ("host", &HOSTS[..])] {
+            for target in ["/dyn", "/index.html"] {
+                v.push(format!("c02.stack {}", list(pool.iter().map(|val| {
+                    let host = if name == "host" { String::new() } else { "host: localhost\r\n".to_owned() };
+                    hex(format!("GET {target} HTTP/1.1\r\n{host}{name}: {val}\r\n\r\n").as_bytes())
+                }))));
+            }
+        }
         for _ in 0..batches {
             v.push(format!("c02.stack {}", list((0..per).map(|_| hex(&gen_input(rng))))));
         }
